@@ -40,6 +40,17 @@ SHAPES = [(r, c) for r in range(1, 5) for c in range(1, 5)] + [(1, 7), (6, 1), (
 SHAPES_MORE = [(2, 9), (7, 2), (1, 12), (9, 1), (6, 6)]
 
 
+
+def pregen():
+    """regenerate coq/theories/Gen/OpAssignArms.v from the current Rust source (translators/opassign_arms.py): the arm
+    obligations of Props/C04.v (section on the op-assignment kernels) are stated over that table"""
+    import os, sys
+    from vlib import core
+    sys.path.insert(0, os.path.join(core.ROOT, "translators"))
+    import armlib
+    return armlib.pregen(PROP, [("opassign_arms", "theories/Proofs/OpAssignArmsP.vo")])
+
+
 # ---- values -----------------------------------------------------------------
 def small_value(k, rng, nonzero=False):
     """small values so that sequences of op-assigns mostly stay exact and in range"""
